@@ -569,6 +569,19 @@ def identifier(expression: exp.Expression) -> exp.Expression:
     """
 
     if (
+        isinstance(expression, exp.Table)
+        and isinstance(fn := expression.this, exp.Anonymous)
+        and isinstance(fn.this, str)
+        and fn.this.upper() == "IDENTIFIER"
+        and "." in (name := fn.expressions[0].this)
+    ):
+        # a qualified table name: keep its parts apart, so that it counts as qualified
+        table = exp.to_table(name, dialect="snowflake")
+        for part in ("this", "db", "catalog"):
+            expression.set(part, table.args.get(part))
+        return expression
+
+    if (
         isinstance(expression, exp.Anonymous)
         and isinstance(expression.this, str)
         and expression.this.upper() == "IDENTIFIER"
